@@ -306,7 +306,9 @@ def eigen_eval(ctx, rng, idx, h, k, N):
     def wit(extra=None):
         return {"k": k, "N": N, "edges": edges, "extra": repr(extra)[:800]}
 
-    if not h.is_connected() or len(h.get_nodes()) != N:
+    from ..mutate import connected_ref
+
+    if not connected_ref(h) or len(h.get_nodes()) != N:
         ctx.note("eigen:generator-disconnected")
         return
     W = np.zeros((N, N))
